@@ -251,10 +251,21 @@ def main(argv=None):
         if any(n > exp_und.get(g, 0) for g, n in cnt.items()):
             retry.append(jobs_by_id[r["job"]])
     if retry and not a.update_ledger:
-        print(f"  retrying {len(retry)} jobs with unexpected unknowns at 4x budget", flush=True)
-        rr = run_pool(retry, scale=4, nproc=max(1, NPROC // 2))
-        byid = {r["job"]: r for r in rr}
-        results = [byid.get(r["job"], r) if not byid.get(r["job"], r)["error"] else r for r in results]
+        for scale, nproc in ((4, max(1, NPROC // 2)), (12, max(1, NPROC // 4))):
+            print(f"  retrying {len(retry)} jobs with unexpected unknowns at {scale}x budget on {nproc} processes", flush=True)
+            rr = run_pool(retry, scale=scale, nproc=nproc)
+            byid = {r["job"]: r for r in rr}
+            results = [byid.get(r["job"], r) if not byid.get(r["job"], r)["error"] else r for r in results]
+            retry = []
+            for r in results:
+                us = unknowns_of(r)
+                cnt = {}
+                for o in us:
+                    cnt[group(o)] = cnt.get(group(o), 0) + 1
+                if any(n > exp_und.get(g, 0) for g, n in cnt.items()):
+                    retry.append(jobs_by_id[r["job"]])
+            if not retry:
+                break
 
     all_obs = [o for r in results for o in r["obs"]]
     # zero-obligation guard (vacuity)
